@@ -49,6 +49,35 @@ hyp("C10", "eng_proto", 450, 3000,
     "histories with id reuse, duplicate announcements, D/T at every stage; in-use counter compared with the model after "
     "every step, LeakSanitizer at exit; non-trivial = a live id was replaced and instances ended in >=3 different ways",
     PROTO_ASSUME)
+hyp("C04", "eng_proto2", 220, 2000,
+    "a generated history H and the same history with one stray reply/unlinked line inserted at a generated position (stale or future "
+    "serial of the same id, unparsable tag, unknown / case-variant / not-awaiting service; every reply kind) are both run; outputs "
+    "must be identical step for step and the stray step silent.  A line that the routing rule says is NOT stray is reclassified and "
+    "not judged.  non-trivial = the stray line's id had a live instance at the insertion point and that instance saw >=1 later event",
+    PROTO_ASSUME)
+hyp("C07", "eng_proto2", 130, 1200,
+    "k=2..5 client scripts on distinct ids are run alone and in a generated order-preserving interleaving; per-client projection of "
+    "the output (lines naming the id or bearing its tag, serial masked) must be equal.  non-trivial = interleaving switches client "
+    "more often than a concatenation would and >=2 clients had queries outstanding", PROTO_ASSUME)
+hyp("C09", "eng_proto2", 350, 3000,
+    "histories with announced addresses from the zero-run x digit-count abstraction, ports 0..65535, random logs sections and "
+    "log-producing events (bad info request, garbage -1 lines, unknown reply words, reload of identical / broken file); every stdout "
+    "line from the V banner on must match one production of the IAuth grammar; client messages must carry id, announced address "
+    "(Python ipaddress as independent parser) and port.  non-trivial = IPv6 announcement with >=2 zero runs or a log-producing event",
+    PROTO_ASSUME + ["Python's ipaddress module is the independent address parser"])
+hyp("C11", "eng_proto2", 400, 3500,
+    "rule tables (0-8 rules, names unique case-insensitively in mixed case, criteria subsets, glob patterns over * and ?, CIDR / "
+    "wildcard / short-form masks with known (network, length)) x clients placed inside / just outside the masks; class field of D/R and "
+    "the U line compared with a reference model.  non-trivial = a non-first rule decides or no rule matches a non-empty table",
+    PROTO_ASSUME + ["glob patterns restricted to literals, * and ? (no [ or backslash) so libc fnmatch flags cannot matter"])
+hyp("C08", "eng_proto3", 300, 2500,
+    "byte streams built from well-formed histories plus hostile lines (parameters deleted one at a time, id-only / blank lines, lines "
+    "up to 65000 bytes, >16 parameters, NUL / high bytes, CR variants, extreme and non-numeric ids), truncated at a generated byte and "
+    "written whole and in generated read chunks: exit 0 at end of input, no ASan/UBSan memory report, no hang, identical output for "
+    "both segmentations; and well-formed histories with spec-level junk lines inserted (unknown ids, unknown command letters, too few "
+    "parameters, unroutable replies, blank lines): output equal to the junk-free run modulo '> :ircd sent garbage' notices.  "
+    "non-trivial = every case (each contains hostile or junk lines next to live client traffic); distinct by case hash",
+    PROTO_ASSUME + ["batch mode: no barrier lines; LeakSanitizer off here (leaks are judged by C10)"])
 
 
 # ---------------------------------------------------------------------------
@@ -169,3 +198,6 @@ def replay(pid, path):
         return 1
     print("replay %s: property %s held" % (path, pid))
     return 0
+
+
+native("C19", "eng_set")
